@@ -305,8 +305,37 @@ def gen_case(rng, permit, n_steps):
             return "class"
         return "plain"
 
+    # churn stream: one component (or an equal pair) registered under several names of one provided
+    # interface, fully unregistered and registered again -- the counting cache goes up, down to
+    # nothing and up again
+    churn = None
+    if not multi and rng.random() < 0.14:
+        pair = rng.choice([[[5, 5], [6, 5]], [[1, 1], [2, 1]]]) if permit == "F13" else [rng.choice([[7, 7], [3, 3], [5, 5], [1, 1]])]
+        churn = {"comps": pair, "p": rng.choice(ifaces), "names": [0, 1, 2]}
+
+    def churn_op():
+        p = churn["p"]
+        live = [(k, v_) for k, v_ in led.u.items() if k[0] == p]
+        free = [n for n in churn["names"] if (p, n) not in led.u]
+        if live and (not free or rng.random() < 0.5):
+            (p_, n_), (oc, _oi, _of) = rng.choice(live)
+            v = None if rng.random() < 0.3 else list(oc)
+            return ["unregU", v, p_, n_, "plain"]
+        if not free:
+            free = churn["names"]
+        return ["regU", list(rng.choice(churn["comps"])), p, rng.choice(free), rng.choice(infos), None, "plain"]
+
+    def churn_query():
+        p = churn["p"]
+        k = rng.choice(["allUtils", "allUtils", "util", "utilsFor"])
+        pa = anc_iface(p) if rng.random() < 0.5 else p
+        return [k, pa, rng.choice(churn["names"])] if k == "util" else [k, pa]
+
     def gen_op():
         nonlocal led
+        if churn is not None and rng.random() < 0.85:
+            seen_prov.append(churn["p"])
+            return churn_op()
         k = rng.choices(["regU", "unregU", "regA", "unregA", "regS", "unregS", "regH", "unregH", "reinit", "uboth"],
                         [5, 3, 3, 2, 3, 2, 2, 1.5, 0.12, 0.4])[0]
         if k == "reinit":
@@ -427,6 +456,8 @@ def gen_case(rng, permit, n_steps):
         return rng.choice([x for x in rel.ancestors(p) if x in ifaces or x == 0])
 
     def gen_query():
+        if churn is not None and rng.random() < 0.7:
+            return churn_query()
         kinds = ["util", "utilsFor", "allUtils", "adapter", "multi", "getAdapters", "subscribers", "handle"]
         k = rng.choices(kinds, [3, 2, 3, 2, 2, 1.5, 3, 2])[0]
         if k in ("util", "utilsFor", "allUtils"):
@@ -554,6 +585,10 @@ def gen_case(rng, permit, n_steps):
             qs.append(gen_query())
         steps.append({"op": op, "on": on, "queries": qs, "qon": qon})
     world["unhashable"] = rng.choice(UNHASHABLE_PRESETS)
+    if churn is not None:
+        cls_ = churn["comps"][0][1]
+        same = [v for v, e in POOL.items() if e == cls_]
+        world["unhashable"] = sorted(set(world["unhashable"]) - set(same) | (set(same) if rng.random() < 0.6 else set()))
     # falsy components (bool(c) is False): an attribute of the implementation's objects only
     r = rng.random()
     world["falsy"] = [] if r < 0.3 else sorted(POOL) if r < 0.45 else [v for v in sorted(POOL) if rng.random() < 0.45]
